@@ -190,7 +190,7 @@ def cmd_discover(args):
             print(f"   Suggested merchant: {merchant}")
             print()
             print(f"   {C.DIM}[{merchant}]")
-            print(f"   match: contains(\"{pattern}\")")
+            print(f"   match: {suggest_match_expression(pattern)}")
             print(f"   category: CATEGORY")
             print(f"   subcategory: SUBCATEGORY")
             if stats['has_negative']:
@@ -211,7 +211,7 @@ def suggest_pattern(description):
     desc = re.sub(r'\s+\d{4,}.*$', '', desc)  # Remove trailing numbers (store IDs)
     desc = re.sub(r'\s+[A-Z]{2}$', '', desc)  # Remove trailing state codes
     desc = re.sub(r'\s+\d{5}$', '', desc)  # Remove zip codes
-    desc = re.sub(r'\s+#\d+', '', desc)  # Remove store numbers like #1234
+    desc = re.sub(r'\s+#\d+$', '', desc)  # Remove trailing store numbers like #1234
 
     # Remove common prefixes
     prefixes = ['APLPAY ', 'SQ *', 'TST*', 'SP ', 'PP*', 'GOOGLE *']
@@ -262,12 +262,21 @@ def suggest_merchant_name(description):
     return 'Unknown'
 
 
+def suggest_match_expression(pattern):
+    """Wrap a suggested pattern in a match expression.
+
+    suggest_pattern() returns a regular expression (escaped metacharacters, words
+    joined by \\s*), so it must be matched with regex(), not contains(); backslashes
+    and quotes are escaped so that the string literal evaluates to exactly the pattern.
+    """
+    literal = pattern.replace('\\', '\\\\').replace('"', '\\"')
+    return f'regex("{literal}")'
+
+
 def suggest_merchants_rule(merchant_name, pattern, tags=None):
     """Generate a suggested rule block in .rules format."""
-    # Escape quotes in pattern if needed
-    escaped_pattern = pattern.replace('"', '\\"')
     rule = f"""[{merchant_name}]
-match: contains("{escaped_pattern}")
+match: {suggest_match_expression(pattern)}
 category: CATEGORY
 subcategory: SUBCATEGORY"""
     if tags:
